@@ -68,6 +68,11 @@ def wrap_scheduler(sched, log):
                 try:
                     out = orig(*args, **kw)
                 except BaseException as e:
+                    if name == "on_trial_result":
+                        # the result *was* handed to the scheduler: delivery monitors must see it
+                        trial = kw.get("trial", args[0] if args else None)
+                        res = kw.get("result", args[1] if len(args) > 1 else None)
+                        log.append((name, trial.trial_id, dict(res), "RAISED", dict(trial.config)))
                     log.append(("sched_exc", name, type(e).__name__, exc_site(e)))
                     raise
                 if name == "suggest":
